@@ -66,8 +66,8 @@ func Run(c *core.Ctx) {
 	if readSome == nil || writeSome == nil {
 		return
 	}
-	rs := ring.RunSym(c, readSome, &ring.Sym{})
-	ws := ring.RunSym(c, writeSome, &ring.Sym{})
+	rs := ring.RunSym(c, readSome, &ring.Sym{AllowCuts: true})
+	ws := ring.RunSym(c, writeSome, &ring.Sym{AllowCuts: true})
 	// which condition does each side wait on?
 	rw := waitCond(c, readSome, rs)
 	ww := waitCond(c, writeSome, ws)
